@@ -88,7 +88,7 @@ func c01Verify(c *c01Case, p *ProofD) (accept bool, disagree bool, panicSig stri
 func genC01Case(t *testing.T, rt *rapid.T) *c01Case {
 	drawLibSeed(t, rt)
 	kp := drawKey(rt, false, true)
-	n := rapid.IntRange(1, 6).Draw(rt, "n")
+	n := rapid.IntRange(1, len(kp.Pk.R)-1).Draw(rt, "n") // up to every base of the key
 	attrs := make([]*big.Int, n)
 	classes := make([]string, n)
 	for i := range attrs {
